@@ -162,7 +162,7 @@ def hyp_job(job):
     def cases(draw):
         transport = draw(st.sampled_from(("udp", "aa55", "tcp")))
         R = draw(st.integers(0, 6))
-        case = {"transport": transport, "keep": draw(st.booleans()), "T": draw(st.sampled_from((0.5, 1.0, 2.0, 4.0))),
+        case = {"transport": transport, "keep": draw(st.booleans()), "T": draw(st.sampled_from((0.5, 1.0, 2.0, 4.0, 5.0, 8.0, 30.0))),
                 "R": R, "script": draw(st.lists(action(transport), min_size=0, max_size=R + 2)),
                 "latency": draw(st.integers(0, 3))}
         if transport == "tcp":
@@ -191,6 +191,8 @@ def run(ctx):
     for keep in (False, True):
         for R in (0, 1, 2):
             jobs.append(("tcp", keep, 1.0, R, "connect"))
+        for R in (0, 1):   # request timeout above the 5 s connect bound: the two bounds must stay separate
+            jobs.append(("tcp", keep, 8.0, R, "connect"))
     if not ctx.quick:
         for transport in ("udp", "tcp"):
             jobs.append((transport, True, 1.0, 3, "scripts"))  # depth 4: 28,561 scripts each
